@@ -102,6 +102,8 @@ class OrderEval:
             if e.id in self.env:
                 return self.env[e.id]
             raise AbsUnknown("free name %s" % e.id)
+        if isinstance(e, ast.IfExp):
+            return self.expr(e.body if self.truth(self.expr(e.test)) else e.orelse)
         if isinstance(e, ast.UnaryOp) and isinstance(e.op, ast.Not):
             return ("bool", not self.truth(self.expr(e.operand)))
         if isinstance(e, ast.UnaryOp) and isinstance(e.op, ast.Invert):
